@@ -157,14 +157,18 @@ __CPROVER_ensures((verif_exc == 0 && data->size < size) ==> (g_eof_seen || g_err
 __CPROVER_ensures((verif_exc == 0 && g_vk >= __CPROVER_old(g_pos) && g_vk < g_pos) ==> (uint8_t)data->data[g_vk - __CPROVER_old(g_pos)] == g_sval)
 __CPROVER_assigns(C14_SRC_ASSIGNS, data->size, __CPROVER_object_whole(data->data));
 
+#include <fcntl.h>
+#define C14_OPENED_TO_REPLACE(fl) ((((fl) & O_ACCMODE) == O_WRONLY || ((fl) & O_ACCMODE) == O_RDWR) && ((fl) & O_CREAT) != 0 && ((fl) & O_TRUNC) != 0 && ((fl) & O_APPEND) == 0)
 /* ---- whole files: one read / one write of the full size, or an exception (never a truncated result) ----------------- */
 void phosg_load_file(vstr* data, const vstr* filename)
 C14_ENTRY C14_RET(data, (size_t)g_stat_size)
 __CPROVER_requires(g_stat_size >= 0 && (size_t)g_stat_size <= C14_MAXLEN)
 __CPROVER_ensures(verif_exc == 0 || verif_exc == EXC_cannot_open_file || verif_exc == EXC_runtime_error)
 __CPROVER_ensures(verif_exc == 0 ==> (data->size == (size_t)g_stat_size && g_chunk == g_stat_size && g_pos == __CPROVER_old(g_pos) + data->size))
+/* the file is opened for reading and left as it is (POSIX open(2): O_TRUNC / O_APPEND / write-only would not do) */
+__CPROVER_ensures(verif_exc == 0 ==> ((g_open_flags & O_ACCMODE) != O_WRONLY && (g_open_flags & (O_TRUNC | O_APPEND)) == 0))
 __CPROVER_ensures((verif_exc == 0 && g_vk >= __CPROVER_old(g_pos) && g_vk < g_pos) ==> (uint8_t)data->data[g_vk - __CPROVER_old(g_pos)] == g_sval)
-__CPROVER_assigns(C14_SRC_ASSIGNS, data->size, __CPROVER_object_whole(data->data));
+__CPROVER_assigns(C14_SRC_ASSIGNS, g_open_flags, data->size, __CPROVER_object_whole(data->data));
 
 void phosg_save_file(const vstr* filename, const void* data, size_t size)
 C14_ENTRY
@@ -173,13 +177,17 @@ __CPROVER_requires(__CPROVER_is_fresh(data, size))
 __CPROVER_ensures(verif_exc == 0 || verif_exc == EXC_cannot_open_file || verif_exc == EXC_runtime_error)
 __CPROVER_ensures(verif_exc == 0 ==> (g_chunk >= 0 && (size_t)g_chunk == size && g_wpos == __CPROVER_old(g_wpos) + size))
 __CPROVER_ensures((verif_exc == 0 && g_vk >= __CPROVER_old(g_wpos) && g_vk < g_wpos) ==> g_wval == C14_U8(data)[g_vk - __CPROVER_old(g_wpos)])
-__CPROVER_assigns(C14_SINK_ASSIGNS);
+/* "load_file(save_file(d)) == d for every d", also when the path already holds a longer file: by POSIX open(2)/write(2) the
+ * file consists of exactly the bytes written iff it was opened for writing, created if missing, TRUNCATED, and not in append mode */
+__CPROVER_ensures(verif_exc == 0 ==> C14_OPENED_TO_REPLACE(g_open_flags))
+__CPROVER_assigns(C14_SINK_ASSIGNS, g_open_flags);
 
 void phosg_save_file_str(const vstr* filename, const vstr* data)
 C14_ENTRY C14_INSTR(data)
 __CPROVER_ensures(verif_exc == 0 || verif_exc == EXC_cannot_open_file || verif_exc == EXC_runtime_error)
 __CPROVER_ensures(verif_exc == 0 ==> (g_chunk >= 0 && (size_t)g_chunk == data->size && g_wpos == __CPROVER_old(g_wpos) + data->size))
 __CPROVER_ensures((verif_exc == 0 && g_vk >= __CPROVER_old(g_wpos) && g_vk < g_wpos) ==> g_wval == (uint8_t)data->data[g_vk - __CPROVER_old(g_wpos)])
-__CPROVER_assigns(C14_SINK_ASSIGNS);
+__CPROVER_ensures(verif_exc == 0 ==> C14_OPENED_TO_REPLACE(g_open_flags))
+__CPROVER_assigns(C14_SINK_ASSIGNS, g_open_flags);
 
 #endif
